@@ -105,18 +105,49 @@ class BuildError(Exception):
     pass
 
 
+BLACKBOX_FALLBACKS = {}     # harness file -> first line of the compiler error that made the white-box view unavailable
+
+
 def build(spec):
     """spec: dict(harness=, flavor=, exclude=[lib srcs], tu_flags={src:[flags]}, lib_flags=[...], extra=[(src, flavor_or_None)],
-                 ldflags=[], nolib=False)"""
+                 ldflags=[], nolib=False, blackbox=dict(exclude=[...], extra=[...]) or absent)
+
+    Harnesses that look at private structures of the repository (to identify states) #include the repository's .c files.  If such a
+    harness no longer compiles (private fields renamed, functions restructured) that says nothing about the property: when the spec
+    names a black-box variant, the harness is rebuilt with -DVH_BLACKBOX against the public API only (state identity = history,
+    searches bounded by depth instead of a fixpoint) and the fallback is recorded in the evidence."""
+    try:
+        if os.environ.get('VERIF_FORCE_BLACKBOX') and spec.get('blackbox') is not None:     # testing aid: exercise the fallback on any tree
+            e = BuildError('forced by VERIF_FORCE_BLACKBOX')
+            e.in_harness = True
+            raise e
+        return _build(spec)
+    except BuildError as e:
+        bb = spec.get('blackbox')
+        if bb is None or not getattr(e, 'in_harness', False):
+            raise
+        first = next((l for l in str(e).splitlines() if 'error' in l), str(e).splitlines()[0] if str(e) else '')
+        BLACKBOX_FALLBACKS[spec['harness']] = first.strip()[:300]
+        s2 = dict(spec)
+        s2.pop('blackbox')
+        s2['hflags'] = spec.get('hflags', []) + ['-DVH_BLACKBOX']
+        s2['exclude'] = bb.get('exclude', [])
+        s2['extra'] = bb.get('extra', [])
+        if bb.get('tu_flags'):
+            s2['tu_flags'] = bb['tu_flags']
+        return _build(s2)
+
+
+def _build(spec):
     fl = FLAVORS[spec.get('flavor', 'asan')]
     inc = ['-include', config_h(), '-I' + REPO, '-I' + os.path.join(REPO, 'mtbl'), '-I' + HARNESS,
            '-I' + os.path.join(REPO, 'src')]
     if not os.path.exists(os.path.join(REPO, 'config.h')):
         inc.append('-I' + BUILD)          # libmy/my_byteorder.h includes "config.h": let it find the generated fallback
     base = fl['cflags'] + COMMON_CFLAGS + inc
-    jobs = []
+    hjobs, jobs = [], []
     hsrc = os.path.join(HARNESS, spec['harness'])
-    jobs.append((fl['cc'], base + spec.get('hflags', []), hsrc))
+    hjobs.append((fl['cc'], base + spec.get('hflags', []), hsrc))
     if not spec.get('nolib'):
         for s in LIB_SRCS:
             if s in spec.get('exclude', []):
@@ -126,11 +157,17 @@ def build(spec):
     for (s, flv) in spec.get('extra', []):
         if flv == 'nosan':
             f = ['-O1', '-g'] + COMMON_CFLAGS + inc
-            jobs.append((fl['cc'], f, os.path.join(HARNESS, s)))
+            hjobs.append((fl['cc'], f, os.path.join(HARNESS, s)))
         else:
-            jobs.append((fl['cc'], base, os.path.join(HARNESS, s)))
+            hjobs.append((fl['cc'], base, os.path.join(HARNESS, s)))
     with ThreadPoolExecutor(max_workers=NCPU) as ex:
-        objs = list(ex.map(lambda j: compile_obj(*j), jobs))
+        libobjs = list(ex.map(lambda j: compile_obj(*j), jobs))     # a library file that does not compile is a real build failure
+        try:
+            hobjs = list(ex.map(lambda j: compile_obj(*j), hjobs))
+        except BuildError as e:
+            e.in_harness = True
+            raise
+    objs = hobjs[:1] + libobjs + hobjs[1:]
     ld = fl['ldflags'] + spec.get('ldflags', [])
     key = sha(fl['cc'], ' '.join(objs), ' '.join(ld))
     exe = os.path.join(BUILD, 'bin', os.path.splitext(spec['harness'])[0] + '-' + key)
@@ -406,6 +443,14 @@ def do_check(pid, tier, seed):
         'counters': total_stats, 'maxima': maxes, 'jobs': per_job,
         'known_findings_hit': [k for k, _ in knownhits],
     })
+    used_bb = {h: why for h, why in BLACKBOX_FALLBACKS.items() if any(j['spec']['harness'] == h for j in chk['jobs'])}
+    if used_bb:
+        for h, why in used_bb.items():
+            msg = ('white-box state view of %s does not compile against this tree (%s); fell back to the black-box build: states are '
+                   'identified by their history (nothing merged), fixpoint searches become depth-bounded trees' % (h, why))
+            print('NOTE [%s]: %s' % (pid, msg))
+            notes.append(msg)
+        cov['whitebox_view'] = False
     if notes:
         cov['notes'] = notes[:20]
     if incomplete:
